@@ -381,6 +381,70 @@ func run(r *mon.Run) {
 				}
 			}
 		}
+		// (2b) two cooperating fields: an index entry whose offset is "negative" (2^64-k) and whose length
+		// makes offset+length wrap back into range, so that it designates the k bytes in front of the
+		// responses section - which a decoy unknown section fills with a complete response item.
+		if n := len(s.Exchanges); n > 0 {
+			hm, _ := rcbor.Map([]rcbor.KV{{K: rcbor.Bytes([]byte(":status")), V: rcbor.Bytes([]byte("200"))}})
+			decoy := rcbor.Cat(rcbor.ArrayHead(2), rcbor.Bytes(hm), rcbor.Bytes([]byte("SMUGGLED")))
+			order := s.DefaultOrder()
+			t := *s
+			t.SectionOrder = append(append(append([]string{}, order[:len(order)-1]...), "x-decoy"), "responses")
+			t.Raw = map[string][]byte{"x-decoy": decoy}
+			_, tf := t.Build(nil)
+			var first rbundle.Field
+			for _, f := range tf {
+				if strings.HasPrefix(f.Role, "index-len") && f.Ex == 0 {
+					first = f
+				}
+			}
+			for _, f := range tf {
+				if !strings.HasPrefix(f.Role, "index-off") {
+					continue
+				}
+				lenRole := strings.Replace(f.Role, "index-off", "index-len", 1)
+				for _, k := range []uint64{uint64(len(decoy)), 1, 2, uint64(len(decoy)) - 1, uint64(len(decoy)) + 1, 1 << 32} {
+					for _, extra := range []uint64{0, 1, first.True, first.True - 1} {
+						caseNo++
+						if !r.Mine(caseNo) {
+							continue
+						}
+						x, _ := t.Build(map[string]rbundle.Ov{f.Role: {Val: -k, Info: -1}, lenRole: {Val: k + extra, Info: -1}})
+						judge(r, x, "wrap-into-decoy", fmt.Sprintf("%s/%s=2^64-%d,len=%d+%d", name, f.Role, k, k, extra), false, 97)
+					}
+				}
+			}
+		}
+
+		// (2c) aliasing index entries: entry j points at entry i's response (same offset) with an exact,
+		// shorter, longer, empty or two-response-spanning length
+		{
+			var offs, lens []rbundle.Field
+			for _, f := range fields {
+				if strings.HasPrefix(f.Role, "index-off") {
+					offs = append(offs, f)
+				}
+				if strings.HasPrefix(f.Role, "index-len") {
+					lens = append(lens, f)
+				}
+			}
+			for i := range offs {
+				for j := range offs {
+					if i == j {
+						continue
+					}
+					for _, l := range []uint64{lens[i].True, lens[i].True - 1, lens[i].True + 1, 0, lens[i].True + lens[j].True, lens[j].True} {
+						caseNo++
+						if !r.Mine(caseNo) {
+							continue
+						}
+						x, _ := s.Build(map[string]rbundle.Ov{offs[j].Role: {Val: offs[i].True, Info: -1}, lens[j].Role: {Val: l, Info: -1}})
+						judge(r, x, "aliasing-entries", fmt.Sprintf("%s/%s->%s,len=%d", name, offs[j].Role, offs[i].Role, l), false, 307)
+					}
+				}
+			}
+		}
+
 		// (3) sections: permuted, duplicated, dropped, unknown inserted
 		order := s.DefaultOrder()
 		if r.Mine(bi + 1) {
